@@ -4,6 +4,14 @@ use crate::output::ResultsFormatter;
 
 pub struct HtmlFormatter;
 
+fn escape_html(s: &str) -> String {
+    s.replace('&', "&amp;")
+        .replace('<', "&lt;")
+        .replace('>', "&gt;")
+        .replace('"', "&quot;")
+        .replace('\'', "&#39;")
+}
+
 impl ResultsFormatter for HtmlFormatter {
     fn header(&mut self) -> Option<String> {
         Some("<html><body><table>".to_owned())
@@ -14,7 +22,7 @@ impl ResultsFormatter for HtmlFormatter {
     }
 
     fn format_element(&mut self, _: &str, record: &str, _is_last: bool) -> Option<String> {
-        Some(format!("<td>{}</td>", record))
+        Some(format!("<td>{}</td>", escape_html(record)))
     }
 
     fn row_ended(&mut self) -> Option<String> {
